@@ -9,7 +9,9 @@ byte stream that the underlying reader delivers in chunks of its own choosing.
 (R) every case on a real gio.Input over a reader that delivers exactly the model's chunks, and
     over three more chunkings of the same stream (all at once, byte by byte, two bytes at a
     time), with buffer sizes 16 (the minimum) and 64: result text, EOF flag, no other error,
-    no panic -- so the results are those of the abstract meaning whatever the chunking."""
+    no panic -- so the results are those of the abstract meaning whatever the chunking; every
+    second run reads through a bufferio.BufferInput (Tee: same results, the buffer holds
+    exactly what the calls returned)."""
 import json
 import vlib
 
